@@ -21,6 +21,8 @@ def lex_cases(maxn_quick, maxn_thorough, openings=True, cheap_top=(4, 5)):
             top = cheap_top[0] if tier == "quick" else cheap_top[1]
             if o == 12 and cheap_top == (4, 5):
                 top = 4        # inside a byte order mark: 5 bytes after it do not finish in 900 s (reference lexer unit)
+            elif cheap_top == (4, 5) and tier == "quick" and o != 11:
+                top = 5        # 1-6 s each with the reference lexer (after a carriage return: 56 s, stays at 4)
             for n in range(0, top + 1):
                 cs.append(dict(base, n=n, open=o))
         for o in BLOCK_OPENINGS:
@@ -85,6 +87,34 @@ PARSE_ASSUME = [
     "lexer.Type.String/Name are evaluated once per possible kind instead of being forked inside",
 ]
 
+def roundtrip_cases(ndocs, nholes, fq, ft, f2q, nextra=0, xk1=()):
+    """hfmt.QueryRoundTrip / SchemaRoundTrip: every seed document of the parser checks with k arbitrary
+    tokens inserted at every position, and every hole template, under formatter configurations fopt
+    (bit 0 comments, 1 compacted, 2-3 indent, 4 descriptions off, 5 built-ins on)."""
+    def f(tier, seed):
+        cs = []
+        for d in range(ndocs):
+            for fo in (fq if tier == "quick" else ft):
+                cs.append({"k": 1, "doc": d, "fopt": fo})
+            for fo in (f2q if tier == "quick" else ft):
+                cs.append({"k": 2, "doc": d, "fopt": fo})
+            if tier == "thorough":
+                cs.append({"k": 3, "doc": d, "fopt": fq[-1]})
+        for h in range(nholes):
+            for hk in ((1, 2) if tier == "quick" else (1, 2, 3)):
+                cs.append({"k": hk, "hole": h, "fopt": fq[(h + hk) % len(fq)]})
+        # documents written for the printer (hfmt.ExtraQueryDocs / ExtraSchemaDocs): as they are under every
+        # configuration of the thorough list, and (thorough tier, shorter documents) with one token inserted anywhere
+        for x in range(nextra):
+            for fo in ft:
+                cs.append({"k": 0, "xdoc": x, "fopt": fo})
+            if tier == "thorough" and x in xk1:      # one token inserted anywhere: the shorter ones only (100-400 s each otherwise)
+                for fo in fq[:3]:
+                    cs.append({"k": 1, "xdoc": x, "fopt": fo})
+        return cs
+    return f
+
+
 def validate_cases(tier, seed):
     """Document shapes of hval.Shapes, split on pinned structural alternatives so every piece
     is a run that has been measured to finish (timings in DESIGN.md)."""
@@ -111,12 +141,14 @@ def validate_cases(tier, seed):
     cs.append({"shape": 12})                 # two defined fragments side by side, each may spread a further (defined / undefined / own) fragment
     cs.append({"shape": 13})                 # one argument position used twice (defaulted and plain variable, literal, null, left out)
     cs.append({"shape": 14})                 # a variable used bare / only inside a list or object literal (also nested)
+    for site in range(5):                    # 15: a variable in a directive argument at each directive location
+        cs.append({"shape": 15, "site": site})
     return cs
 
 
-SCHEMA_SHAPE_PARTS = {0: 1, 1: 1, 2: 1, 3: 5, 4: 4, 5: 3, 6: 5, 7: 1}
+SCHEMA_SHAPE_PARTS = {0: 1, 1: 1, 2: 1, 3: 5, 4: 4, 5: 3, 6: 5, 7: 1, 8: 1}
 # number of top-level definitions of every piece (the harness refuses an order / cut that does not exist)
-SCHEMA_SHAPE_DEFS = {(0, None): 5, (1, None): 3, (2, None): 6, (7, None): 8,
+SCHEMA_SHAPE_DEFS = {(0, None): 5, (1, None): 3, (2, None): 6, (7, None): 8, (8, None): 7,
                      (3, 0): 7, (3, 1): 7, (3, 2): 7, (3, 3): 7, (3, 4): 7,
                      (4, 0): 3, (4, 1): 3, (4, 2): 4, (4, 3): 5,
                      (5, 0): 7, (5, 1): 8, (5, 2): 8,
@@ -142,6 +174,18 @@ def schema_load_cases(tier, seed):
     return cs
 
 
+def loaded_schema_cases(tier, seed):
+    """hfmt.LoadedSchema: every piece of the C07 type-system shapes; the formatter configuration rotates
+    over the pieces in the quick tier, the thorough tier runs each piece under four."""
+    cs = []
+    for i, c in enumerate(schema_load_cases(tier, seed)):
+        if tier == "quick":
+            cs.append(dict(c, fopt=(0, 1, 2, 16, 7)[i % 5]))
+        else:
+            cs += [dict(c, fopt=fo) for fo in (0, 3, 16, 14)]
+    return cs
+
+
 def schema_order_cases(tier, seed):
     """order: 0 reversed, 1..n-1 rotations, n.. transpositions; split: 0 one source, 1 one source per
     definition, 1+c two sources cut after c definitions."""
@@ -151,9 +195,9 @@ def schema_order_cases(tier, seed):
         n_orders = 1 + (n - 1) + n * (n - 1) // 2
         if tier == "quick":
             combos = [(0, 1)]                # reversed, one source per definition
-            if c["shape"] == 7:              # extension-only types: also every rotation in one source
+            if c["shape"] in (7, 8):         # extension-only types: also every rotation in one source
                 combos += [(o, 0) for o in range(1, n)]
-        elif c["shape"] == 7:               # light: every order over one source per definition, every cut of the reversal
+        elif c["shape"] in (7, 8):          # light: every order over one source per definition, every cut of the reversal
             combos = [(o, 1) for o in range(n_orders)] + [(0, 0)] + [(0, 1 + k) for k in range(1, n)] + [(o, 0) for o in range(1, n)]
         else:
             def transposition(a, b):         # index of the order that swaps definitions a < b
@@ -170,7 +214,7 @@ def argmap_cases(tier, seed):
     """Documents that carry arguments: literals of every kind at every argument of the kitchen-sink field,
     variable definitions (every type shape x default) used bare / in a list / in an object, directives with
     arguments, one position used twice, variables nested in literals."""
-    return [c for c in validate_cases(tier, seed) if c["shape"] in (0, 1, 5, 6, 13, 14)]
+    return [c for c in validate_cases(tier, seed) if c["shape"] in (0, 1, 5, 6, 13, 14, 15)]
 
 
 VAR_ARGS = ["i", "i1", "l", "l1", "ll", "ll1", "lll", "e", "el", "in", "inl", "in1", "s", "fl", "b", "id", "c", "cl"]
@@ -208,6 +252,7 @@ def determinism_cases(tier, seed):
         cs.append({"shape": 2, "top": top, "inline": 0, "aspread": 1, "frag2": 0, "bspread": 0})
         cs.append({"shape": 2, "top": top, "inline": 1, "aspread": 0, "frag2": 1, "bspread": 0})
     cs.append({"shape": 7, "alt1": 0})
+    cs += [{"shape": 15, "site": s} for s in range(5)]
     return cs
 
 
@@ -219,6 +264,7 @@ def compose_cases(tier, seed):
         cs.append({"shape": 0, "alt3": a3})
     for top in range(3):
         cs.append({"shape": 2, "top": top, "inline": 0, "aspread": 1, "frag2": 0, "bspread": 0})
+    cs += [{"shape": 15, "site": s} for s in range(5)]
     # the variable-definition shape (about 2,000 paths per piece x 37 validations) does not
     # finish in 600 s and is left out of this check
     if tier == "thorough":
@@ -308,24 +354,30 @@ CHECKS = {
         "units": [{"pkg": "verifh/hfmt", "fn": "StringValue",
                    "cases": {"quick": [{"n": n, "block": b} for n in (0, 1, 2) for b in (0, 1)],
                              "thorough": [{"n": n, "block": b} for n in (0, 1, 2, 3) for b in (0, 1)] + [{"n": 4, "block": 0}]},
-                   "panic_prop": "C12"}],
-        "covers": ["C12.string-read-back"],
-        "case_timeout": {"quick": 400, "thorough": 3000},
-        "level_text": "Only the clause 'string values survive byte for byte whatever characters they contain' is decided, because that is where the inputs are rare: the value of a string argument is n arbitrary bytes (solver variables; assumed well-formed UTF-8 or free of characters that need an escape - the two forms a lexed string value can take), the real formatter prints a one-field document holding it (Value.String's quoting runs symbolically), the real lexer reads the text back, and the token value is asserted equal to the bytes. The structural half of the property (same operations, selections, directives; fixpoint) is outside this check.",
-        "bounds": {"quick": "string and block-string values of <= 2 arbitrary bytes (every byte value, every pair), default formatter options",
-                   "thorough": "<= 3 bytes (4 for ordinary strings)"},
-        "outside": "NOT DECIDED: the structural round trip (operations, fragments, selections, arguments, directives, types), the fixpoint clause, other formatter options (indent, comments, compaction: none of them touches value printing); string values longer than the bound; values built by hand that no lexer run can produce (an escape-needing character together with bytes that are not UTF-8)",
-        "assumptions": ["bytes.Buffer and strings.Builder are engine models (append-only byte sequences)", "the six tokens before the string (query { f ( a :) are concrete text and are lexed concretely"],
+                   "panic_prop": "C12"},
+                  {"pkg": "verifh/hfmt", "fn": "QueryRoundTrip",
+                   "cases": roundtrip_cases(NQ_DOCS, NQ_HOLES, (0, 1, 2, 7), (0, 1, 2, 3, 7, 9, 14), (3,), nextra=5, xk1=(1, 2, 3)), "panic_prop": "C12"}],
+        "covers": ["C12.string-read-back", "C12.document-parsed", "C12.formatted-text-parsed"],
+        "case_timeout": {"quick": 600, "thorough": 3000},
+        "level_text": "Two units. (1) Text of string values: the value of a string argument is n arbitrary bytes (solver variables; assumed well-formed UTF-8 or free of characters that need an escape - the two forms a lexed string value can take), the real formatter prints a one-field document holding it (Value.String's quoting runs symbolically), the real lexer reads the text back, and the token value is asserted equal to the bytes. (2) Structure and fixpoint: the document is a symbolic token stream of the C05 harness (a complete seed document with 1-2 arbitrary tokens inserted at every position, or a hole template at every value / name position filled with 1-2 arbitrary tokens). It is parsed symbolically by the real parser; on every accepting path the structure is case-split and every leaf (ordinary names: one arbitrary letter; integers: one arbitrary digit; string / block-string / comment text: one arbitrary character of '#'..'Z') is a fresh solver variable. The real formatter prints that tree under the case's configuration, the real lexer and parser read the text (concrete layout, symbolic leaf bytes; lexer paths over a leaf re-join inside ReadToken), and the harness asserts: the text parses; both trees give the same event list (operations, fragments, variable definitions with types / defaults / directives, selections, aliases, arguments, values, directives; a block string and a quoted string holding the same text count as the same value); formatting the second tree reproduces the text.",
+        "bounds": {"quick": "strings: <= 2 arbitrary bytes, default options; structure: the 17 seed documents with 1 token inserted anywhere under 4 configurations (default; comments; compacted; comments + compacted + two-blank indent) and 2 tokens under one (comments + compacted), the 13 hole templates with 1-2 tokens; 5 documents written for the printer (every optional part present; a comment before every token) as they are under 7 configurations; leaves one symbolic character each",
+                   "thorough": "strings <= 3 bytes (4 for ordinary strings); structure: 1-2 inserted tokens under 7 configurations (incl. empty indent, blank+tab indent), 3 tokens under one, holes with 1-3 tokens"},
+        "outside": "documents larger than the seed documents plus 3 tokens; leaves longer than one character (names that are prefixes of keywords, multi-digit numbers); string values longer than the bound together with structure; values built by hand that no lexer run can produce; indents other than the four tried (the property says any white-space indent)",
+        "assumptions": PARSE_ASSUME[:1] + ["bytes.Buffer and strings.Builder are engine models (append-only byte sequences)", "strings.TrimSpace / TrimPrefix on a string of concrete length with symbolic bytes are engine models (ASCII; a feasible non-ASCII byte is refused)", "a block-string value and a quoted-string value with the same text are the same value (the printer writes every string value quoted)"],
     },
     "C13": {
         "units": [{"pkg": "verifh/hfmt", "fn": "Description",
-                   "cases": {"quick": [{"n": n, "where": w} for n in (1, 2) for w in (0, 1)], "thorough": [{"n": n, "where": w} for n in (1, 2, 3) for w in (0, 1)]}, "panic_prop": "C13"}],
-        "covers": ["C13.description-read-back"],
-        "case_timeout": {"quick": 400, "thorough": 3000},
-        "level_text": "Only the clause about descriptions is decided: a scalar definition carrying a description of n arbitrary bytes (solver variables) is printed by the real FormatSchemaDocument, the real lexer reads the description token back (block-string value computation included), and the value is asserted equal to the description.",
-        "bounds": {"quick": "descriptions of 1-2 arbitrary bytes on a top-level definition and on a field (printed one level in), default formatter options", "thorough": "1-3 bytes"},
-        "outside": "NOT DECIDED: the structural round trip of definitions, extensions, members, defaults and directives; FormatSchema of a loaded schema; descriptions of arguments, enum values and directive definitions; longer descriptions; other formatter options",
-        "assumptions": ["bytes.Buffer is an engine model", "strings.Split on a symbolic string is modelled (engine self-test against Go)"],
+                   "cases": {"quick": [{"n": n, "where": w} for n in (1, 2) for w in (0, 1)], "thorough": [{"n": n, "where": w} for n in (1, 2, 3) for w in (0, 1)]}, "panic_prop": "C13"},
+                  {"pkg": "verifh/hfmt", "fn": "SchemaRoundTrip",
+                   "cases": roundtrip_cases(NS_DOCS, NS_HOLES, (0, 1, 2, 16, 23), (0, 1, 2, 3, 16, 17, 18, 19, 23, 9, 14), (19,), nextra=8, xk1=(0, 2)), "panic_prop": "C13"},
+                  {"pkg": "verifh/hfmt", "fn": "LoadedSchema", "cases": loaded_schema_cases, "panic_prop": "C13"}],
+        "covers": ["C13.description-read-back", "C13.document-parsed", "C13.formatted-text-parsed", "C13.schema-loaded", "C13.formatted-schema-loaded"],
+        "case_timeout": {"quick": 600, "thorough": 3000},
+        "level_text": "Two units. (1) Descriptions: a scalar definition (or a field) carrying a description of n arbitrary bytes (solver variables) is printed by the real FormatSchemaDocument, the real lexer reads the description token back (block-string value computation included), and the value is asserted equal to the description. (2) Structure and fixpoint of parsed schema documents: as for C12 over the type-system seed documents and hole templates of the C06 harness - symbolic parse, case split of the accepted structure, leaves as fresh solver variables, the real formatter under the case's configuration, the real lexer and parser on the text; asserted: the text parses, both documents give the same event list (schema definitions / extensions, directive definitions with arguments, repeatable, locations; definitions and extensions with kind, name, description, interfaces, directives, fields with arguments / types / defaults / directives, members, enum values), compared after folding several schema definitions (extensions) into one - the form the printer writes - and, with descriptions switched off, without descriptions; formatting the second document reproduces the text. (3) Loaded schemas: the type system is one of the symbolic shapes of the C07 check (names are solver variables), loaded symbolically by the real loader; on every path that loads, the names are case-split (a name decides which definition is meant: structure, not a leaf), FormatSchema prints the schema, the real lexer, parser and loader read the text back, and the two schemas are asserted equal (types with kind, description, interfaces, members, applied directives with arguments; fields and enum values in order with types, arguments, defaults, directives, descriptions; directive definitions with arguments, locations, repeatable; root operation types; schema directives and description) and the second schema prints to the same text.",
+        "bounds": {"quick": "descriptions of 1-2 arbitrary bytes on a top-level definition and on a field, default options; structure: the 35 seed documents with 1 token inserted anywhere under 5 configurations (default; comments; compacted; descriptions off; comments + compacted + two-blank indent + descriptions off) and 2 tokens under one (comments + compacted + descriptions off), the 25 hole templates with 1-2 tokens; 8 documents written for the printer (descriptions, name-valued defaults, several arguments, directives with arguments at every position, every extension kind, a comment before every token) as they are under 11 configurations; loaded schemas: the 54 pieces of the 8 type-system shapes, one formatter configuration each (rotating over default, comments, compacted, descriptions off, comments + compacted + two-blank indent)",
+                   "thorough": "loaded schemas under 4 configurations each; descriptions 1-3 bytes; 1-2 inserted tokens under 8 configurations, 3 under one, holes with 1-3 tokens"},
+        "outside": "FormatSchema with built-ins switched on (its output re-declares the prelude and cannot be loaded through LoadSchema); loaded schemas beyond the 54 pieces of the C07 shapes (few descriptions and defaults there); documents accepted only through the listed finding KF-C06-schema-without-operation-types (`schema` without operation types prints as `schema {}`); descriptions of arguments, enum values and directive definitions beyond one character; longer descriptions together with structure; larger documents",
+        "assumptions": PARSE_ASSUME[:1] + ["bytes.Buffer is an engine model", "strings.Split / TrimSpace / TrimPrefix on symbolic strings are modelled (engine self-test against Go)"],
     },
     "C14": {
         "units": [{"pkg": "verifh/hval", "fn": "VarCoerce", "cases": varcoerce_cases, "panic_prop": "C14"}],
@@ -417,7 +469,7 @@ CHECKS = {
             {"pkg": "verifh/hlex", "fn": "StepRef", "cases": lex_cases(5, 6), "panic_prop": "C03"},
         ],
         "covers": ["C03.error", "C03.name", "C03.number", "C03.comment", "C03.eof", "C03.string", "C03.blockstring"],
-        "bounds": {"quick": "every well-formed UTF-8 string of <= 5 bytes after the cursor, and <= 4 bytes after each of 15 concrete openings (<= 3 after two of the block-string ones), one token, against the reference lexer (kind, extent in characters, value, failure)",
+        "bounds": {"quick": "every well-formed UTF-8 string of <= 5 bytes after the cursor, and <= 5 bytes after each of 9 cheap concrete openings (inside a string, a unicode escape, after a backslash, in a comment, after a sign / leading zero / decimal point / exponent marker, two dots), <= 4 after the other 6 (<= 3 after two of the block-string ones), one token, against the reference lexer (kind, extent in characters, value, failure)",
                    "thorough": "<= 6 bytes plain (7 does not finish in 1000 s); <= 5 after the cheap openings, <= 4 after every block-string opening"},
         "outside": "longer inputs; ill-formed UTF-8 (covered for totality only, C01)",
         "assumptions": LEX_ASSUME + ["reference lexer hlex.RefNext written from section 2.1 of the October 2021 text; validated natively against lexer_test.yml at setup"],
@@ -428,7 +480,7 @@ CHECKS = {
             {"pkg": "verifh/hlex", "fn": "StepTotal", "cases": lex_cases(4, 6, openings=False), "panic_prop": None},
         ],
         "covers": [],
-        "bounds": {"quick": "token positions and the lexer's resting counters: <= 5 bytes after the cursor and <= 4 after each concrete opening, relative to the resting counters",
+        "bounds": {"quick": "token positions and the lexer's resting counters: <= 5 bytes after the cursor, <= 5 after 9 cheap concrete openings and <= 4 after the others, relative to the resting counters",
                    "thorough": "<= 6 bytes plain; <= 5 / 4 after openings"},
         "outside": "that a node's position is its first token; inputs beyond the bounds",
         "assumptions": LEX_ASSUME,
